@@ -25,51 +25,74 @@ def pairs(F):
     return out
 
 
+def nested_enums(F, v):
+    """workspace enums (two or more variants) without a codec of their own that are direct payload fields of variant v"""
+    own = {p_[0] for p_ in pairs(F)}       # enums with a Serializable impl are checked variant by variant through their own pair
+    out = []
+    for f in v["fields"]:
+        base = f["ty"].strip().lstrip("&").split("<")[0]
+        for i, a in F.adts.items():
+            if (i == base or i.endswith("::" + base.split("::")[-1])) and len(a["variants"]) > 1 and a not in out and i.rsplit("::", 1)[-1] not in own:
+                out.append(a)
+    return out
+
+
 def check_pair(ctx, F, name, w, r, adt, modes, extra=lambda: ((), ()), variants=None, prop="C10", mode_extra=None):
     nvar = 0
     for mode in modes:
-        S.MODE.clear()
-        S.MODE.update(mode)
-        S.MODE.update(mode_extra or {})
         for v in adt["variants"]:
             if variants is not None and v["name"] not in variants:
                 continue
-            key = "%s::%s|%s" % (name, v["name"], "bools=%s,options=%s" % (mode["bool"], mode["option"]))
-            has_payload = bool(v["fields"])
-            try:
-                val = S.gen_adt(F, adt, variant=v["name"])
-                ew, er = extra()
-                stream, res = S.roundtrip(F, w, r, val, extra_w=ew, extra_r=er)
-            except (Unanalysable, PanicReached) as e:
-                ctx.inst(key=key, nontrivial=has_payload)
-                ctx.violation("UNANALYSABLE|%s::%s" % (name, v["name"]), F.fns[w].loc(), "cannot analyse the writer of %s::%s: %s" % (name, v["name"], str(e)[:300]))
-                continue
-            nvar += 1
-            ctx.inst(key=key, nontrivial=has_payload)
-            oks = [x for x in res if x[0] == "ret" and isinstance(x[1], Agg) and x[1].variant == "Ok"]
-            mism = [x for x in res if x[0] == "mismatch"]
-            una = [x for x in res if x[0] == "unanalysable"]
-            good = [x for x in oks if S.same(x[1].items[0], val) and not x[3]]
-            toks = [(k, str(x)[:24]) for k, x in stream if k not in ("many_begin", "many_end")]
-            if len(ctx.samples) < 10 and has_payload:
-                ctx.sample({"type": "%s::%s" % (name, v["name"]), "written_tokens": toks[:8], "reader_paths": len(res), "round_trips": bool(good)})
-            if una and not oks:
-                ctx.violation("UNANALYSABLE|%s::%s" % (name, v["name"]), F.fns[r].loc(), "cannot analyse the reader of %s::%s: %s" % (name, v["name"], una[0][1][:300]))
-                continue
-            ok = bool(good) and len(good) == len(oks) and not mism
-            ctx.oblig(ok)
-            if ok:
-                continue
-            if mism:
-                what = mism[0][1]
-            elif not oks:
-                what = "the reader rejects what the writer wrote: %s" % ([str(x[1])[:120] for x in res][:2])
-            else:
-                bad = [x for x in oks if x not in good][0]
-                what = ("reader leaves %d written tokens unread" % len(bad[3])) if bad[3] else "the reader rebuilds %s" % str(bad[1].items[0])[:200]
-            ctx.violation("roundtrip|%s::%s" % (name, v["name"]), F.fns[w].loc(),
-                          "%s::%s does not round-trip: writer tokens %s; %s" % (name, v["name"], toks[:8], what))
+            # the variant itself, then once per further variant of every enum nested directly in its payload
+            nestings = [None] + [(e["id"], nv["name"]) for e in nested_enums(F, v) if e is not adt for nv in e["variants"][1:]]
+            for nest in nestings:
+                S.MODE.clear()
+                S.MODE.update(mode)
+                S.MODE.update(mode_extra or {})
+                if nest:
+                    S.MODE["nested"] = {nest[0]: nest[1]}
+                vlabel = v["name"] if not nest else "%s<%s::%s>" % (v["name"], nest[0].rsplit("::", 1)[-1], nest[1])
+                nvar += check_one(ctx, F, name, w, r, adt, v, vlabel, mode, extra)
+    S.MODE.pop("nested", None)
     return nvar
+
+
+def check_one(ctx, F, name, w, r, adt, v, vlabel, mode, extra):
+    key = "%s::%s|%s" % (name, vlabel, "bools=%s,options=%s" % (mode["bool"], mode["option"]))
+    has_payload = bool(v["fields"])
+    try:
+        val = S.gen_adt(F, adt, variant=v["name"])
+        ew, er = extra()
+        stream, res = S.roundtrip(F, w, r, val, extra_w=ew, extra_r=er)
+    except (Unanalysable, PanicReached) as e:
+        ctx.inst(key=key, nontrivial=has_payload)
+        ctx.violation("UNANALYSABLE|%s::%s" % (name, vlabel), F.fns[w].loc(), "cannot analyse the writer of %s::%s: %s" % (name, vlabel, str(e)[:300]))
+        return 0
+    ctx.inst(key=key, nontrivial=has_payload)
+    oks = [x for x in res if x[0] == "ret" and isinstance(x[1], Agg) and x[1].variant == "Ok"]
+    mism = [x for x in res if x[0] == "mismatch"]
+    una = [x for x in res if x[0] == "unanalysable"]
+    good = [x for x in oks if S.same(x[1].items[0], val) and not x[3]]
+    toks = [(k, str(x)[:24]) for k, x in stream if k not in ("many_begin", "many_end")]
+    if len(ctx.samples) < 10 and has_payload:
+        ctx.sample({"type": "%s::%s" % (name, vlabel), "written_tokens": toks[:8], "reader_paths": len(res), "round_trips": bool(good)})
+    if una and not oks:
+        ctx.violation("UNANALYSABLE|%s::%s" % (name, vlabel), F.fns[r].loc(), "cannot analyse the reader of %s::%s: %s" % (name, vlabel, una[0][1][:300]))
+        return 1
+    ok = bool(good) and len(good) == len(oks) and not mism
+    ctx.oblig(ok)
+    if ok:
+        return 1
+    if mism:
+        what = mism[0][1]
+    elif not oks:
+        what = "the reader rejects what the writer wrote: %s" % ([str(x[1])[:120] for x in res][:2])
+    else:
+        bad = [x for x in oks if x not in good][0]
+        what = ("reader leaves %d written tokens unread" % len(bad[3])) if bad[3] else "the reader rebuilds %s" % str(bad[1].items[0])[:200]
+    ctx.violation("roundtrip|%s::%s" % (name, vlabel), F.fns[w].loc(),
+                  "%s::%s does not round-trip: writer tokens %s; %s" % (name, vlabel, toks[:8], what))
+    return 1
 
 
 MODES = ({"bool": False, "option": "Some"}, {"bool": True, "option": "None"})
